@@ -21,8 +21,8 @@ try:
     dd = os.path.join(wt, '.demo'); os.makedirs(dd, exist_ok=True)
     for fn in os.listdir(inc):
         if fn.endswith('.py'):
-            src2 = re.sub(r'/tmp/wt_C\d+', wt, open(os.path.join(inc, fn)).read())
-            src2 = re.sub(r'/tmp/c\d+_demo', dd, src2)
+            src2 = re.sub(r'/tmp/wt2?_C\d+', wt, open(os.path.join(inc, fn)).read())
+            src2 = re.sub(r'/tmp/c\d+_demo2?', dd, src2)
             open(os.path.join(dd, fn), 'w').write(src2)
     d2 = os.path.join(dd, 'demo_%s.py' % tag)
     r = sh('/venv/bin/python %s' % d2, env=env, cwd=wt, timeout=900); res['demo_clean_rc'] = r.returncode
@@ -51,7 +51,7 @@ try:
         res['checks'][c] = {'cmd': 'VERIF_REPO=<worktree+patch> ./check %s --tier quick' % c, 'rc': r.returncode, 'detected': r.returncode == 1, 'first_lines': [re.sub(r'replay=\S+', 'replay=<scratch>', l)[:300] for l in lines], 'wall_s': round(time.time() - t0, 1)}
 finally:
     sh('git -C /repo worktree remove --force %s' % wt)
-out = '/verif/seeded/%s-%s' % (prop, tag)
+out = '/verif/seeded/%s-%s%s' % (prop, tag, os.environ.get('SEED_ROUND', ''))
 if res.get('confirmed'):
     os.makedirs(out, exist_ok=True)
     shutil.copy(patch, os.path.join(out, 'patch.diff')); shutil.copy(demo, os.path.join(out, 'demo.py'))
